@@ -833,12 +833,41 @@ async fn lowlevel_round(w: &mut dyn WritableZone, mdl: &Mdl, who: &str, names: &
                     let r = gen_plain_rec(names);
                     (r.owner, r.rtype)
                 };
-                ev!("{} remove_rrset {} {}", who, owner, rtype);
-                match node_for(root.as_ref(), &owner, mdl).await {
-                    Some(n) => n.remove_rrset(rtype).await.expect("remove_rrset"),
-                    None => root.remove_rrset(rtype).await.expect("remove_rrset"),
+                // (Now and then by storing an RRset without records in its
+                // place, which comes to the same.)
+                if sim::chance("writer.rm_by_empty_rrset", 1, 3) {
+                    ev!("{} update_rrset {} {} (no records)", who, owner, rtype);
+                    sim::stat("probe.rrset_removed_by_storing_an_empty_one");
+                    let empty = rrset_of(rtype, 300, &BTreeSet::new(), &owner);
+                    match node_for(root.as_ref(), &owner, mdl).await {
+                        Some(n) => n.update_rrset(empty).await.expect("update_rrset"),
+                        None => root.update_rrset(empty).await.expect("update_rrset"),
+                    }
+                } else {
+                    ev!("{} remove_rrset {} {}", who, owner, rtype);
+                    match node_for(root.as_ref(), &owner, mdl).await {
+                        Some(n) => n.remove_rrset(rtype).await.expect("remove_rrset"),
+                        None => root.remove_rrset(rtype).await.expect("remove_rrset"),
+                    }
                 }
                 working.remove(&(owner, rtype));
+            }
+            6 if sim::chance("writer.ttl_only", 1, 2) => {
+                // The same records under another TTL.
+                let existing: Vec<(String, Rtype)> = working.keys().filter(|(_, t)| *t != Rtype::SOA && *t != Rtype::CNAME).cloned().collect();
+                if !existing.is_empty() {
+                    let (owner, rtype) = sim::pick("writer.ttl_which", &existing).clone();
+                    let (ttl, rds) = working.get(&(owner.clone(), rtype)).cloned().unwrap();
+                    let new_ttl = if ttl == 300 { 60 } else { 300 };
+                    ev!("{} update_rrset {} {} ttl {} -> {} (same records)", who, owner, rtype, ttl, new_ttl);
+                    sim::stat("probe.ttl_only_update");
+                    let rrset = rrset_of(rtype, new_ttl, &rds, &owner);
+                    match node_for(root.as_ref(), &owner, mdl).await {
+                        Some(n) => n.update_rrset(rrset).await.expect("update_rrset"),
+                        None => root.update_rrset(rrset).await.expect("update_rrset"),
+                    }
+                    working.insert((owner, rtype), (new_ttl, rds));
+                }
             }
             6 => {
                 // Update after remove of the same RRset in one version.
@@ -1026,7 +1055,19 @@ async fn updater_batch(zone: &Zone, mdl: &Mdl, who: &str, names: &[String]) {
             return;
         }
     }
-    if abort_at.is_some() {
+    if abort_at.is_none() && sim::chance("up.finish_with_a_record_that_is_no_soa", 1, 8) {
+        // The end of the update goes wrong: `Finished` is handed a record
+        // that is no SOA. It fails - and nothing of this part is published.
+        let bad = gen_plain_rec(names);
+        ev!("{} Finished({}) - not an SOA", who, bad.line());
+        sim::stat("fault.finished_with_a_record_that_is_no_soa");
+        if up.apply(ZoneUpdate::Finished(bad.record())).await.is_ok() {
+            sim::violation(P9, "commit", "finished-accepted-a-record-that-is-no-soa", "ZoneUpdate::Finished with an address / text record was accepted".to_string());
+        }
+        mdl.borrow_mut().aborts += 1;
+        release(mdl);
+        drop(up);
+    } else if abort_at.is_some() {
         ev!("{} ABORT (updater dropped)", who);
         sim::stat("fault.writer_abort");
         mdl.borrow_mut().aborts += 1;
